@@ -66,70 +66,99 @@ inline GenCase shapeCase(const Shape &s, const char *tag)
     return g;
 }
 
-// quick: Q1 apply(head, operands) and Q2 container(name, children) in {top, rhs} x both modes; Q3 apply(H, C); Q4 apply(H, filled, ci)
+// building blocks: Q1 apply(head, operands) and Q2 container(name, children), each in {top-level, rhs of an equation};
+// Q3 apply(H, C) with one arbitrary first operand; Q4 apply(H, filled form, ci)
 inline uint64_t nV() { return vocabulary().size(); }
-inline uint64_t q1Count() { return (nV() + 1) * operandLists().size() * 2 * 2; }
-inline uint64_t q2Count() { return nV() * operandLists().size() * 2 * 2; }
+static const std::vector<std::string> &structuralNames()
+{ // the elements that are not operators: tokens, containers, qualifiers, constants, and the unsupported ones
+    static std::vector<std::string> v = {"ci", "cn", "sep", "apply", "piecewise", "piece", "otherwise", "bvar", "logbase", "degree", "pi", "exponentiale", "notanumber", "infinity", "true", "false",
+                                         "csymbol", "lambda", "semantics", "unknownop", "sum"};
+    return v;
+}
+inline uint64_t q1Count() { return (nV() + 1) * operandLists().size() * 2; }
+inline uint64_t q2Count() { return nV() * operandLists().size() * 2; }
+inline uint64_t q3sCount() { return nV() * structuralNames().size(); }
 inline uint64_t q3Count() { return nV() * nV(); }
 inline uint64_t q4Count() { return nV() * filledForms().size(); }
-inline Shape shapeQ(uint64_t i)
+inline Shape shapeQ1(uint64_t i, bool strict)
 {
     Shape s;
     const auto &V = vocabulary();
-    if (i < q1Count()) {
-        Radix r(i);
-        bool strict = r.take(2) == 0, rhs = r.take(2) == 1;
-        auto &ops = operandLists()[r.take(operandLists().size())];
-        uint64_t h = r.take(nV() + 1);
-        std::string head = h < nV() ? "<" + V[h] + "/>" : "";
-        std::string sh = "<apply>" + head + kids(ops) + "</apply>";
-        s.body = rhs ? rhsCtx(sh) : sh;
-        s.strict = strict;
-        s.unsupported = h < nV() && unsupportedName(V[h]);
-        s.what = std::string("Q1 apply(head=") + (h < nV() ? V[h] : "none") + ", " + std::to_string(ops.size()) + " operands) " + (rhs ? "as rhs" : "top-level");
-        return s;
-    }
-    i -= q1Count();
-    if (i < q2Count()) {
-        Radix r(i);
-        bool strict = r.take(2) == 0, rhs = r.take(2) == 1;
-        auto &ops = operandLists()[r.take(operandLists().size())];
-        const std::string &n = V[r.take(nV())];
-        std::string sh = ops.empty() ? "<" + n + "/>" : "<" + n + (n == "cn" ? " cellml:units=\"dimensionless\"" : "") + ">" + kids(ops) + "</" + n + ">";
-        s.body = rhs ? rhsCtx(sh) : sh;
-        s.strict = strict;
-        s.unsupported = unsupportedName(n);
-        s.what = "Q2 container " + n + " with " + std::to_string(ops.size()) + " children " + (rhs ? "as rhs" : "top-level");
-        return s;
-    }
-    i -= q2Count();
-    if (i < q3Count()) {
-        const std::string &h = V[i / nV()], &cc = V[i % nV()];
-        s.body = rhsCtx("<apply><" + h + "/>" + leaf(cc) + "</apply>");
-        s.unsupported = unsupportedName(h) || unsupportedName(cc);
-        s.what = "Q3 apply(" + h + ", " + cc + ")";
-        return s;
-    }
-    i -= q3Count();
-    const std::string &h = V[i / filledForms().size()];
-    s.body = rhsCtx("<apply><" + h + "/>" + filledForms()[i % filledForms().size()] + "<ci>x</ci></apply>");
-    s.unsupported = unsupportedName(h);
-    s.what = "Q4 apply(" + h + ", filled form " + std::to_string(i % filledForms().size()) + ", ci)";
+    Radix r(i);
+    bool rhs = r.take(2) == 1;
+    auto &ops = operandLists()[r.take(operandLists().size())];
+    uint64_t h = r.take(nV() + 1);
+    std::string head = h < nV() ? "<" + V[h] + "/>" : "";
+    std::string sh = "<apply>" + head + kids(ops) + "</apply>";
+    s.body = rhs ? rhsCtx(sh) : sh;
+    s.strict = strict;
+    s.unsupported = h < nV() && unsupportedName(V[h]);
+    s.what = std::string("Q1 apply(head=") + (h < nV() ? V[h] : "none") + ", operands=" + kids(ops) + ") " + (rhs ? "as rhs" : "top-level");
     return s;
 }
-// thorough: T3 apply(H; k operands, one arbitrary), T4 container(N; C + j ci), T5 apply(H; filled-form arrangements), T6 = Q3 permissive + top-level
+inline Shape shapeQ2(uint64_t i, bool strict)
+{
+    Shape s;
+    const auto &V = vocabulary();
+    Radix r(i);
+    bool rhs = r.take(2) == 1;
+    auto &ops = operandLists()[r.take(operandLists().size())];
+    const std::string &n = V[r.take(nV())];
+    std::string sh = ops.empty() ? "<" + n + "/>" : "<" + n + (n == "cn" ? " cellml:units=\"dimensionless\"" : "") + ">" + kids(ops) + "</" + n + ">";
+    s.body = rhs ? rhsCtx(sh) : sh;
+    s.strict = strict;
+    s.unsupported = unsupportedName(n);
+    s.what = "Q2 container " + n + " with children " + kids(ops) + (rhs ? " as rhs" : " top-level");
+    return s;
+}
+inline Shape shapeQ3(const std::string &h, const std::string &cc)
+{
+    Shape s;
+    s.body = rhsCtx("<apply><" + h + "/>" + leaf(cc) + "</apply>");
+    s.unsupported = unsupportedName(h) || unsupportedName(cc);
+    s.what = "Q3 apply(" + h + ", " + cc + ")";
+    return s;
+}
+inline Shape shapeQ4(uint64_t i)
+{
+    Shape s;
+    const std::string &h = vocabulary()[i / filledForms().size()];
+    s.body = rhsCtx("<apply><" + h + "/>" + filledForms()[i % filledForms().size()] + "<ci>x</ci></apply>");
+    s.unsupported = unsupportedName(h);
+    s.what = "Q4 apply(" + h + ", filled form " + filledForms()[i % filledForms().size()] + ", ci)";
+    return s;
+}
+// quick: Q1 + Q2 (strict parser; the parser mode does not touch MathML of a 2.0 document) + Q3 with a non-operator first operand + Q4
+inline Shape shapeQ(uint64_t i)
+{
+    if (i < q1Count()) return shapeQ1(i, true);
+    i -= q1Count();
+    if (i < q2Count()) return shapeQ2(i, true);
+    i -= q2Count();
+    if (i < q3sCount()) return shapeQ3(vocabulary()[i / structuralNames().size()], structuralNames()[i % structuralNames().size()]);
+    i -= q3sCount();
+    return shapeQ4(i);
+}
+// thorough: Q1 + Q2 with the permissive parser, the full Q3 square, T3 apply(H; k operands, one arbitrary), T4 container(N; C + j ci),
+// T5 apply(H; filled-form arrangements)
 static const int T5_ARR = 5;
-inline uint64_t t3Count() { return nV() * nV() * 6; }
-inline uint64_t t4Count() { return nV() * nV() * 3; }
+inline uint64_t t3Count() { return nV() * nV() * 3; }
+inline uint64_t t4Count() { return nV() * nV() * 2; }
 inline uint64_t t5Count() { return nV() * filledForms().size() * T5_ARR; }
 inline Shape shapeT(uint64_t i)
 {
     Shape s;
     const auto &V = vocabulary();
+    if (i < q1Count()) return shapeQ1(i, false);
+    i -= q1Count();
+    if (i < q2Count()) return shapeQ2(i, false);
+    i -= q2Count();
+    if (i < q3Count()) return shapeQ3(V[i / nV()], V[i % nV()]);
+    i -= q3Count();
     if (i < t3Count()) {
         Radix r(i);
-        uint64_t kp = r.take(6); // (k,p): (1,0) (2,0) (2,1) (3,0) (3,1) (3,2)
-        static const int K[] = {1, 2, 2, 3, 3, 3}, P[] = {0, 0, 1, 0, 1, 2};
+        uint64_t kp = r.take(3); // (k,p): (2,0) (2,1) (3,1); (1,0) is Q3
+        static const int K[] = {2, 2, 3}, P[] = {0, 1, 1};
         const std::string &cc = V[r.take(nV())], &h = V[r.take(nV())];
         std::string ops;
         for (int j = 0; j < K[kp]; ++j) ops += j == P[kp] ? leaf(cc) : leaf("ci");
@@ -141,7 +170,7 @@ inline Shape shapeT(uint64_t i)
     i -= t3Count();
     if (i < t4Count()) {
         Radix r(i);
-        uint64_t j = r.take(3);
+        uint64_t j = r.take(2);
         const std::string &cc = V[r.take(nV())], &n = V[r.take(nV())];
         std::string inner = leaf(cc);
         for (uint64_t q = 0; q < j; ++q) inner += leaf("ci");
@@ -159,7 +188,7 @@ inline Shape shapeT(uint64_t i)
         std::string ops = arr == 0 ? f : arr == 1 ? x + f : arr == 2 ? f + x + x : arr == 3 ? x + f + x : f + f;
         s.body = rhsCtx("<apply><" + h + "/>" + ops + "</apply>");
         s.unsupported = unsupportedName(h);
-        s.what = "T5 apply(" + h + "; filled-form arrangement " + std::to_string(arr) + ")";
+        s.what = "T5 apply(" + h + "; " + ops + ")";
         return s;
     }
 }
@@ -318,7 +347,7 @@ inline GenCase scaleBigCase(uint64_t i)
 {
     Radix r(i);
     bool strict = r.take(2) == 0;
-    size_t st = r.take(N_SINGLE), kind = r.take(N_SCALE_KINDS);
+    size_t st = r.take(N_SINGLE), kind = r.take(N_SCALE_KINDS - 1); // imported-units-chain already fails at n = 10 in `scale`
     return scaleCaseOf(kind, kind == 6 ? 18 : 1000, st, strict);
 }
 inline GenCase scaleHangCase(uint64_t i) { return scaleCaseOf(6, 64, i, true); }
@@ -410,11 +439,11 @@ inline GenCase cycleCase(uint64_t i)
 inline const std::vector<GenFamily> &genFamilies()
 {
     static std::vector<GenFamily> f = {
-        {"shape_q", [] { return q1Count() + q2Count() + q3Count() + q4Count(); }, [](uint64_t i) { return shapeCase(shapeQ(i), "e:"); }},
-        {"shape_t", [] { return t3Count() + t4Count() + t5Count(); }, [](uint64_t i) { return shapeCase(shapeT(i), "e:"); }},
+        {"shape_q", [] { return q1Count() + q2Count() + q3sCount() + q4Count(); }, [](uint64_t i) { return shapeCase(shapeQ(i), "e:"); }},
+        {"shape_t", [] { return q1Count() + q2Count() + q3Count() + t3Count() + t4Count() + t5Count(); }, [](uint64_t i) { return shapeCase(shapeT(i), "e:"); }},
         {"shape_d3", d3Count, [](uint64_t i) { return shapeCase(shapeD3(i), "e3:"); }},
         {"scale", [] { return uint64_t(N_SCALE_KINDS * 4 * N_SINGLE * 2); }, scaleCase},
-        {"scale_big", [] { return uint64_t(N_SCALE_KINDS * N_SINGLE * 2); }, scaleBigCase},
+        {"scale_big", [] { return uint64_t((N_SCALE_KINDS - 1) * N_SINGLE * 2); }, scaleBigCase},
         {"scale_hang", [] { return uint64_t(N_SINGLE); }, scaleHangCase},
         {"cycles", [] { return uint64_t(N_CYCLE_KINDS * 3 * N_SINGLE * 2); }, cycleCase},
     };
